@@ -43,6 +43,27 @@ def sched(args, timeout=3600):
     return json.loads(p.stdout.decode().strip().splitlines()[-1])
 
 
+def apalache_obligations(wd, with_negative):
+    """Init => IndInv, IndInv /\\ Next => IndInv', IndInv => ReturnsFull for build-then-publish (symbolic, any execution length);
+    with_negative: the publish-then-fill instance must fail the inductive step"""
+    src = os.path.join(common.VERIF, 'spec_apalache')
+    out = {}
+    obligations = [('init', 'MC_LazyCell.tla', ['--init=Init', '--inv=IndInv', '--length=0'], True),
+                   ('step', 'MC_LazyCell.tla', ['--init=IndInit', '--inv=IndInv', '--length=1'], True),
+                   ('implies', 'MC_LazyCell.tla', ['--init=IndInit', '--inv=ReturnsFull', '--length=0'], True)]
+    if with_negative:
+        obligations.append(('step-publish-then-fill', 'MC_LazyCellBad.tla', ['--init=IndInit', '--inv=IndInv', '--length=1'], False))
+    for name, mod, args, expect_ok in obligations:
+        p = subprocess.run(['apalache-mc', 'check'] + args + ['--out-dir=' + os.path.join(wd, 'apa_' + name), mod], cwd=src,
+                           stdout=subprocess.PIPE, stderr=subprocess.STDOUT, timeout=1800)
+        txt = p.stdout.decode('utf-8', 'replace')
+        ok = 'EXITCODE: OK' in txt
+        out[name] = 'discharged' if ok else 'refuted'
+        if ok != expect_ok:
+            raise tlc.TLCError('Apalache obligation %s: expected %s\n%s' % (name, 'OK' if expect_ok else 'a counterexample', txt[-1500:]))
+    return out
+
+
 def run(tier, replay=None):
     t0 = time.time()
     schema.ensure()
@@ -63,6 +84,8 @@ def run(tier, replay=None):
             raise tlc.TLCError('LazyInit (build-then-publish) violates its properties:\n' + r['out'][-2500:])
         if design == 'publish-then-fill' and not r['violated']:
             raise tlc.TLCError('negative control failed: publish-then-fill should violate ReturnsFull / PublishedComplete')
+    # ---- Apalache: the inductive core (one table, 5 threads, executions of any length) -- spec_apalache/LazyCell.tla
+    apa = apalache_obligations(wd, with_negative=(tier == 'thorough'))
     # ---- GEN: profile, choose pre-emption lines
     pairs = PAIRS[:6] if tier == 'quick' else PAIRS
     json.dump([dict(a=a, b=b) for a, b in pairs], open(os.path.join(wd, 'pairs.json'), 'w'))
@@ -139,7 +162,7 @@ def run(tier, replay=None):
                     'each in a freshly forked process with pristine lazy tables; all are distinct; every schedule exercises C20_solo (both threads compared with their solo runs). '
                     'quick: every 2nd line inside a lazily-initialising frame + every 40th other line of 5 workload pairs; thorough: every line of 10 pairs',
                schedules=len(events), library_lines_of_first_use=total_lines, pairs=[list(p) for p in pairs], mc=mcs,
-               model_drift_count=drift,
+               model_drift_count=drift, apalache=apa,
                samples=[dict(a=e['a'], b=e['b'], index=e['index'], A=e['A'], B=e['B'], tables=e['tables']) for e in events[:: max(1, len(events) // 3)][:3]])
     if not os.environ.get('VERIF_KEEP'):
         shutil.rmtree(wd, ignore_errors=True)
